@@ -1376,12 +1376,12 @@ impl<'u> Tr<'u> {
                 let mut merged = first.clone();
                 for b in &evs[1..] {
                     if b.len() != first.len() || b.iter().zip(&first).any(|(x, y)| x.0 != y.0 || x.1.len() != y.1.len()) {
-                        if cx.opaque_conds && branches.len() == 2 && matches!(e, Expr::If(_)) {
+                        if cx.opaque_conds && branches.len() == 2 && matches!(e, Expr::If(_) | Expr::Match(_)) {
                             // the condition is an input of the generated definition
                             let c = format!("c{}", cx.conds.len() + 1);
                             cx.conds.push(c.clone());
                             self.notes.push(format!(
-                                "{}:{}: the condition of this `if` is not translated ({}): it is the boolean input `{c}` of the generated definition",
+                                "{}:{}: the condition of this `if` / two-armed `match` is not translated ({}): it is the boolean input `{c}` of the generated definition (true: the first branch)",
                                 self.cur_file,
                                 e.span().start().line,
                                 cond_err.msg
